@@ -1245,6 +1245,11 @@ class AV:
                 if pos == C(0):
                     fr.env[name] = mk_list((self._ev(node.args[1], fr),) + _items(cur))
                     return
+                if pos[0] == "c" and isinstance(pos[1], int) and cur[0] == "list" and not any(i[0] in ("spread", "when") for i in cur[1]):
+                    items_ = list(cur[1])
+                    items_.insert(pos[1], self._ev(node.args[1], fr))
+                    fr.env[name] = ("list", tuple(items_))
+                    return
             if m == "update" and cur[0] == "dict":
                 other = self._ev(node.args[0], fr) if node.args else ("dict", ())
                 kw = tuple((C(k.arg), self._ev(k.value, fr)) for k in node.keywords if k.arg)
@@ -1408,7 +1413,18 @@ class AV:
             return v
         return unk(type(n).__name__)
 
+    def _nt_fields_of_ctor(self, base):
+        if base[0] == "call" and base[1].split(".")[-1] in self._namedtuples():
+            fields = self._namedtuples()[base[1].split(".")[-1]]
+            vals = dict(zip(fields, base[2]))
+            vals.update(dict(base[3]))
+            return fields, vals
+        return None, None
+
     def _attr_nt(self, base, name):
+        fields, vals = self._nt_fields_of_ctor(base)
+        if fields is not None and name in vals:
+            return vals[name]
         cls = self.nt_of.get(base)
         if cls is not None and name in self._namedtuples().get(cls, []):
             return mk_sub(base, C(self._namedtuples()[cls].index(name)))
@@ -1588,6 +1604,14 @@ class AV:
             v = ("call", show(tgt), args, kwargs_t)
             self.call_log.append((fr.func, n, v))
             return v
+        # NamedTuple._replace on a constructor value
+        if isinstance(fn, ast.Attribute) and fn.attr == "_replace" and not args:
+            recv = self._ev(fn.value, fr)
+            fields, vals = self._nt_fields_of_ctor(recv)
+            if fields is not None:
+                vals = dict(vals)
+                vals.update(dict(kwargs))
+                return ("call", recv[1], (), tuple(sorted(vals.items())))
         # mutation of a tracked local inside an expression
         if isinstance(fn, ast.Attribute) and isinstance(fn.value, ast.Name) and fn.value.id in fr.env and fn.attr in MUTATING:
             name = fn.value.id
@@ -1615,7 +1639,7 @@ class AV:
         # package callees
         callee = self._resolve(fn, fr)
         if callee is not None and fr.depth < MAX_DEPTH and (dotted(fn) or "") not in self.opaque and self.inline(callee):
-            bound_self = isinstance(fn, ast.Attribute) and not _is_static(callee)
+            bound_self = isinstance(fn, ast.Attribute) and not _is_static(callee) and not (isinstance(fn.value, ast.Name) and fn.value.id == callee.qualname.split(".")[0])
             v = self._apply_func(callee, args, kwargs, fr, self._ev(fn.value, fr) if bound_self else None)
             if v is not None:
                 return v
@@ -1690,6 +1714,8 @@ class AV:
                     return C(len(a[1]))
                 return ("call", "len", args, ())
             if name == "isinstance":
+                if len(args) == 2 and args[0][0] == "c" and isinstance(args[0][1], (str, int, float)) and args[1][0] == "sym" and any(qn == args[1][1].split(".")[-1] for (_r, qn) in self.sm.classes):
+                    return C(False)  # a plain constant is not an instance of a class of the package
                 return ("call", "isinstance", args, ())
             if name in ("indent", "dedent"):
                 return self._textwrap(name, args, kw)
@@ -1748,6 +1774,13 @@ class AV:
                         if k == args[0]:
                             return v
                     return args[1] if len(args) > 1 else NONE
+            if m == "index" and len(args) == 1:
+                recv = self._ev(recv_node, fr)
+                if recv[0] == "list" and not any(i[0] in ("spread", "when") for i in recv[1]) and args[0][0] == "c" and all(i[0] == "c" for i in recv[1]):
+                    try:
+                        return C([i[1] for i in recv[1]].index(args[0][1]))
+                    except ValueError:
+                        return ("raise", "ValueError")
             if m == "copy" and not args:
                 recv = self._ev(recv_node, fr)
                 if recv[0] in ("list", "dict"):
@@ -1837,6 +1870,14 @@ class AV:
                 if rel:
                     return sm.funcs.get((rel, name))
             return None
+        if isinstance(fn, ast.Attribute) and isinstance(fn.value, ast.Name) and fn.value.id not in fr.env and fn.value.id not in ("self", "cls"):
+            # ClassName.method(...) on a class of the package (static / class methods)
+            for (rel, qn), cobj in sm.classes.items():
+                if qn == fn.value.id and fn.attr in cobj.methods:
+                    m = cobj.methods[fn.attr]
+                    if any(x.split(".")[-1] in ("staticmethod", "classmethod") for x in m.decorators()):
+                        return m
+            return None
         if isinstance(fn, ast.Attribute) and isinstance(fn.value, ast.Name) and fn.value.id in ("self", "cls") and fr.func is not None and "." in fr.func.qualname:
             cls = fr.func.qualname.split(".")[0]
             # not overridden below, found in the class or its package bases
@@ -1856,9 +1897,17 @@ class AV:
                         queue.extend(b.split(".")[-1] for b in cobj.bases)
             if found is None:
                 return None
+            # dynamic dispatch: only overrides in subclasses of the current class can be meant by self.<name>
+            subs, grew = {cls}, True
+            while grew:
+                grew = False
+                for (rel, qn), cobj in sm.classes.items():
+                    if qn not in subs and any(b.split(".")[-1] in subs for b in cobj.bases):
+                        subs.add(qn)
+                        grew = True
             for (rel, qn), cobj in sm.classes.items():
-                if fn.attr in cobj.methods and cobj.methods[fn.attr] is not found:
-                    return None  # dynamic dispatch: several definitions in the package
+                if qn in subs and qn != found.qualname.split(".")[0] and fn.attr in cobj.methods and cobj.methods[fn.attr] is not found:
+                    return None
             decs = found.decorators()
             if any(x.split(".")[-1] in ("property", "cached_property", "abstractmethod") for x in decs):
                 return None
